@@ -226,6 +226,8 @@ def gen_hist(rng, n_ops: int) -> dict:
             sp = {}
             if rng.random() < 0.15:
                 sp["ttl"] = rng.choice([3000, 10 * memrun.S])
+            if rng.random() < 0.3:
+                sp["next"] = rng.choice([-1, 500, 1500, 4000, 30_000])      # foreign and own messages in the delayed store
             ops.append({"op": "put", "id": nid, "queue": 1, "topic": t, "params": sp})
             known[nid] = (1, t)
             nid += 1
@@ -236,9 +238,9 @@ def gen_hist(rng, n_ops: int) -> dict:
         elif r < 0.92:
             ops.append({"op": "terminal"})
         else:
-            ops.append({"op": "tick", "d": rng.choice([500, 1000, 3000])})
+            ops.append({"op": "tick", "d": rng.choice([500, 1000, 3000, 30_000])})
     return {"queues": queues, "consumers": consumers, "ops": ops, "known": known,
-            "terminal_kinds": ["ack", "ack", "reject", "nack"]}
+            "terminal_kinds": ["ack", "ack", "reject", "nack", "requeue"]}
 
 
 def run(ctx: Ctx) -> Result:
